@@ -122,8 +122,12 @@ def gen_cases(rng, tier):
         spell = rng.randrange(10**6)
         alt = rng.random() < 0.3
         noncmp = [f"f{j}" for j in range(nf) if rng.random() < 0.2]     # compare=False fields are type-checked like the others
-        cases.append(_fields_case(fields, quoted, {"kind": "random-class", "noninit": noninit, "spell": spell, "alt": alt,
-                                                   "noncmp": noncmp}))
+        split, reann = 0, []
+        if rng.random() < 0.3:
+            split = rng.randint(1, nf)
+            reann = [f"f{j}" for j in range(split) if rng.random() < 0.3]
+        cases.append(_fields_case(fields, quoted, {"kind": "base-first" if split else "random-class", "noninit": noninit, "spell": spell,
+                                                   "alt": alt, "noncmp": noncmp, "split": split, "reann": reann}))
         if rng.random() < 0.35:
             # the same class constructed a second time with other values, after a first construction with the values
             # above: a verdict must not depend on what an earlier construction of the class was given
@@ -157,16 +161,31 @@ def impl(t, case):
     future = quoted
     lines = []
     vals, defaults = {}, {}
-    for name, ty, v in fields:
+    # "split" = k: the first k fields are declared by a concrete base class KB, which is constructed (checking on) BEFORE
+    # the class under test; the fields named in "reann" are declared by KB with another annotation and re-annotated by
+    # K.  The model sees the flat field list of K either way: what a base class was given or cached must not matter
+    # (seeded change C13-5: type map cached on the class and inherited by the subclass).
+    split = min(int(opts.get("split") or 0), len(fields))
+    reann = set(opts.get("reann") or [])
+    base_lines = []
+    for idx, (name, ty, v) in enumerate(fields):
         ann = P.ty_src(ty, ctx, True if future else False, "top")
         vsrc = P.val_src(v, ctx)
         cmp_ = ", compare=False" if name in (opts.get("noncmp") or []) else ""
         if name in (opts.get("noninit") or []):
-            lines.append(f"    {name}: {ann} = field(init=False, default_factory=lambda: _DEFAULTS[{name!r}]{cmp_})")
+            decl = lambda a: f"    {name}: {a} = field(init=False, default_factory=lambda: _DEFAULTS[{name!r}]{cmp_})"
             defaults[name] = vsrc
         else:
-            lines.append(f"    {name}: {ann}" + (" = field(compare=False)" if cmp_ else ""))
+            decl = lambda a: f"    {name}: {a}" + (" = field(compare=False)" if cmp_ else "")
             vals[name] = vsrc
+        if idx < split:
+            if name in reann:
+                base_lines.append(decl("str" if ann.strip("'\"") == "int" else "int"))
+                lines.append(decl(ann))
+            else:
+                base_lines.append(decl(ann))
+        else:
+            lines.append(decl(ann))
     # non-default init fields must precede nothing in particular: init=False fields take no part in __init__
     pre = P.PREAMBLE
     sup = [(P.s_(x.args[0]), [P.s_(y) for y in x.args[1]]) for x in t.args[0]]
@@ -179,8 +198,23 @@ def impl(t, case):
         # the value objects are built once: both constructions receive the very same objects
         mod.m._DEFAULTS = {k: eval(s, mod.m.__dict__) for k, s in defaults.items()}
         kwargs = {k: eval(s, mod.m.__dict__) for k, s in vals.items()}
+        kbase = "ASTNode"
+        if split:
+            kbase = "KB" + mod.sfx
+            mod.run(("from __future__ import annotations\n" if future else "")
+                    + f"@dataclass(frozen=True)\nclass {kbase}(ASTNode):\n" + "\n".join(base_lines) + "\n")
+            old0 = config.RUNTIME_TYPE_CHECK
+            try:
+                config.RUNTIME_TYPE_CHECK = True
+                bnames = [nm for nm, _, _ in fields[:split]]
+                try:
+                    getattr(mod.m, kbase)(**{k: v for k, v in kwargs.items() if k in bnames})
+                except Exception:  # noqa
+                    pass
+            finally:
+                config.RUNTIME_TYPE_CHECK = old0
         mod.run(("from __future__ import annotations\n" if future else "")
-                + f"@dataclass(frozen=True)\nclass {kname}(ASTNode):\n" + "\n".join(lines or ["    pass"]) + "\n")
+                + f"@dataclass(frozen=True)\nclass {kname}({kbase}):\n" + "\n".join(lines or ["    pass"]) + "\n")
         K = getattr(mod.m, kname)
         if opts.get("prime"):
             from ..lib.term import from_text
